@@ -85,6 +85,82 @@ fn normal_form(ast: Ast) -> (Vec<String>, Vec<String>) {
     (toks, c.comments)
 }
 
+/// Decode a quoted Lua string body (all escapes of Lua 5.1-5.4 / Luau) to bytes.
+fn decode_quoted(body: &str) -> Vec<u8> {
+    let b = body.as_bytes();
+    let mut out = Vec::new();
+    let mut i = 0;
+    while i < b.len() {
+        if b[i] != b'\\' { out.push(b[i]); i += 1; continue; }
+        i += 1;
+        if i >= b.len() { break; }
+        match b[i] {
+            b'a' => { out.push(7); i += 1 } b'b' => { out.push(8); i += 1 } b'f' => { out.push(12); i += 1 }
+            b'n' => { out.push(10); i += 1 } b'r' => { out.push(13); i += 1 } b't' => { out.push(9); i += 1 } b'v' => { out.push(11); i += 1 }
+            b'\r' => { out.push(10); i += 1; if i < b.len() && b[i] == b'\n' { i += 1 } }
+            b'\n' => { out.push(10); i += 1; if i < b.len() && b[i] == b'\r' { i += 1 } }
+            b'z' => { i += 1; while i < b.len() && (b[i] as char).is_ascii_whitespace() { i += 1 } }
+            b'x' => { let h = std::str::from_utf8(&b[i + 1..(i + 3).min(b.len())]).unwrap_or("0"); out.push(u8::from_str_radix(h, 16).unwrap_or(0)); i += 3 }
+            b'u' => {
+                let end = body[i..].find('}').map(|e| i + e).unwrap_or(b.len() - 1);
+                let cp = u32::from_str_radix(&body[i + 2..end], 16).unwrap_or(0);
+                let mut buf = [0u8; 4];
+                match char::from_u32(cp) { Some(c) => out.extend_from_slice(c.encode_utf8(&mut buf).as_bytes()), None => out.extend_from_slice(&cp.to_be_bytes()) }
+                i = end + 1
+            }
+            d if d.is_ascii_digit() => {
+                let mut n = 0u32; let mut k = 0;
+                while k < 3 && i < b.len() && b[i].is_ascii_digit() { n = n * 10 + (b[i] - b'0') as u32; i += 1; k += 1 }
+                out.push(n as u8)
+            }
+            other => { out.push(other); i += 1 }
+        }
+    }
+    out
+}
+fn string_values(ast: &Ast) -> Vec<Vec<u8>> {
+    struct S(Vec<Vec<u8>>);
+    impl Visitor for S {
+        fn visit_token(&mut self, t: &Token) {
+            if let TokenType::StringLiteral { literal, quote_type, .. } = t.token_type() {
+                match quote_type {
+                    full_moon::tokenizer::StringLiteralQuoteType::Brackets => {
+                        // a first newline is skipped by Lua; newline convention inside long strings may change
+                        let l = literal.as_str().replace("\r\n", "\n");
+                        self.0.push(l.strip_prefix('\n').unwrap_or(&l).as_bytes().to_vec())
+                    }
+                    _ => self.0.push(decode_quoted(literal.as_str())),
+                }
+            }
+        }
+    }
+    let mut s = S(vec![]); s.visit_ast(ast); s.0
+}
+fn number_value(text: &str) -> String {
+    let t = text.replace('_', "").to_lowercase();
+    let (neg, t) = match t.strip_prefix('-') { Some(r) => (true, r.to_string()), None => (false, t) };
+    let v = if let Some(h) = t.strip_prefix("0x") {
+        let (mant, exp) = match h.split_once('p') { Some((m, e)) => (m.to_string(), e.parse::<i32>().unwrap_or(0)), None => (h.to_string(), 0) };
+        let (ip, fp) = match mant.split_once('.') { Some((a, b)) => (a.to_string(), b.to_string()), None => (mant, String::new()) };
+        let mut v = 0f64;
+        for c in ip.chars() { v = v * 16.0 + c.to_digit(16).unwrap_or(0) as f64 }
+        let mut scale = 1.0 / 16.0;
+        for c in fp.chars() { v += c.to_digit(16).unwrap_or(0) as f64 * scale; scale /= 16.0 }
+        v * 2f64.powi(exp)
+    } else if let Some(bn) = t.strip_prefix("0b") {
+        bn.chars().fold(0f64, |a, c| a * 2.0 + if c == '1' { 1.0 } else { 0.0 })
+    } else {
+        let t2 = t.trim_end_matches("ull").trim_end_matches("ll").trim_end_matches('i');
+        t2.parse::<f64>().unwrap_or(f64::NAN)
+    };
+    format!("{:e}", if neg { -v } else { v })
+}
+fn number_values(ast: &Ast) -> Vec<String> {
+    struct S(Vec<String>);
+    impl Visitor for S { fn visit_token(&mut self, t: &Token) { if let TokenType::Number { text } = t.token_type() { self.0.push(number_value(text.as_str())) } } }
+    let mut s = S(vec![]); s.visit_ast(ast); s.0
+}
+
 fn main() {
     let args: Vec<String> = std::env::args().collect();
     // vxreplay <oracle> <file> [k=v]... [range=a:b] [contains=<file>]
@@ -164,6 +240,36 @@ fn main() {
                         else if ca != cb { ("violated", format!("comment census differs: input {:?} / output {:?}", ci, co), out) }
                         else if !cfg.sort_requires.enabled && ki != ko { ("violated", "statement order changed although sort_requires is off".to_string(), out) }
                         else { ("ok", String::new(), out) }
+                    }
+                    ("literals", Ok(o)) => {
+                        let i = full_moon::parse_fallible(&src, cfg.syntax.into()).into_result().unwrap();
+                        let (si, so) = (string_values(&i), string_values(&o));
+                        let (ni, no) = (number_values(&i), number_values(&o));
+                        if si != so { let k = si.iter().zip(so.iter()).position(|(a, b)| a != b).unwrap_or(0);
+                            ("violated", format!("string literal #{} denotes {:?} in the input and {:?} in the output", k, si.get(k).map(|x| String::from_utf8_lossy(x).to_string()), so.get(k).map(|x| String::from_utf8_lossy(x).to_string())), out) }
+                        else if ni != no { ("violated", format!("numeric literals denote {:?} in the input and {:?} in the output", ni, no), out) }
+                        else { ("ok", String::new(), out) }
+                    }
+                    ("whitespace", Ok(_)) => {
+                        // C10 on text without string literals: line endings and leading whitespace obey the configuration
+                        let crlf = matches!(cfg.line_endings, LineEndings::Windows);
+                        let bytes = out.as_bytes();
+                        let mut bad: Option<String> = None;
+                        for (k, c) in bytes.iter().enumerate() {
+                            if *c == b'\n' && crlf && (k == 0 || bytes[k - 1] != b'\r') { bad = Some(format!("bare line feed at byte {k}")); break; }
+                            if *c == b'\r' && (!crlf || k + 1 >= bytes.len() || bytes[k + 1] != b'\n') { bad = Some(format!("stray carriage return at byte {k}")); break; }
+                        }
+                        if bad.is_none() {
+                            for (n, line) in out.split('\n').enumerate() {
+                                let line = line.trim_end_matches('\r');
+                                let ws: String = line.chars().take_while(|c| *c == ' ' || *c == '\t').collect();
+                                if line.trim().is_empty() { if !line.is_empty() { bad = Some(format!("line {} holds only whitespace", n + 1)); break; } continue; }
+                                let ok = match cfg.indent_type { IndentType::Tabs => ws.chars().all(|c| c == '\t'), IndentType::Spaces => ws.chars().all(|c| c == ' ') && ws.len() % cfg.indent_width.max(1) == 0 };
+                                if !ok { bad = Some(format!("line {} is indented with {:?}", n + 1, ws)); break; }
+                            }
+                        }
+                        if bad.is_none() && !out.is_empty() && (!out.ends_with('\n') || out.ends_with("\n\n") || out.ends_with("\n\r\n")) { bad = Some("output does not end with exactly one line ending".into()); }
+                        match bad { Some(b) => ("violated", b, out), None => ("ok", String::new(), out) }
                     }
                     ("contains", Ok(_)) => {
                         let needle = contains.clone().unwrap();
